@@ -38,6 +38,12 @@ CHECKS = {
    technique='deterministic simulation: seeded call histories on shared mutable codec/pitch objects vs reference model, interruption faults, ddmin-minimised replay',
    design='4.4', engine='sim-history'),
 }
+ 
+CHECKS['C20'] = dict(
+   text='The one property whose mechanism lives on the operating-system seam. kernpy (load, dump, kern_to_ekern, ekern_to_krn and the real CLI in single-file and directory mode, recursive or not) runs on a simulated OS: an in-memory tree behind builtins.open/io.open/os.stat/lstat/scandir/listdir/mkdir/getcwd, with the REAL CPython io stack on a fake raw file, so read/write chunk boundaries (inside multi-byte characters, between CR and LF), EINTR, EIO/ENOSPC at a byte or call, failing open/mkdir, listing order, the preferred encoding, a virtual cwd and a second actor (mkdir inside the exists->makedirs window, unlink between listing and open) are all decided by the seeded plan. Oracle: the in-memory API on the same text (documents with equal deep snapshots, error lists and exports; target bytes equal dumps(...).encode(locale); converter outputs equal the API export; kern->ekern->kern->ekern fixed point) plus a frame condition after every operation. Under an injected fault an operation may raise but never return normally with a wrong target; the next fault-free operation is strict again.',
+   note='Trusted: simfs models one POSIX-like tree (no symlinks, no permissions beyond injected errno); text-mode universal newlines are part of "the same input" for ekern2kern; crash consistency of a half-written target is not asserted (only reported); the reference is kernpy\'s own in-memory API, so a defect common to both paths is invisible.',
+   technique='deterministic simulation: simulated file system/locale/external actor under the real io stack, seeded chunking + errno fault injection + interruption, in-memory API as reference model, ddmin-minimised replay',
+   design='4.5', engine='sim-fs')
 
 PENDING = {}
 
